@@ -33,14 +33,17 @@ def tasks(tier):
   if tier == 'quick':
     out += [dict(ob='Q1', m=1, dt='int8'), dict(ob='Q1', m=1, dt='int16'), dict(ob='Q1', m=2, dt='int8'),
             dict(ob='Q2', m=1, dt='int8'), dict(ob='Q3', m=1, dt='int8'), dict(ob='Q3diag', m=2, dt='int16'),
-            dict(ob='Q4', m=1, dt='int8'), dict(ob='Q5', m=2, dt='float32'), dict(ob='V0', m=0, dt='all', n=24)]
+            dict(ob='Q4', m=1, dt='int8'), dict(ob='Q5', m=2, dt='float32'), dict(ob='V0', m=0, dt='all', n=24),
+            # off-diagonal part of a square (not necessarily symmetric) matrix quantized with extract_diagonal
+            dict(ob='Q1diag', m=2, dt='int8')]
   else:
     for dt in ('int8', 'int16'):
       hard = dict(stretch=True) if dt == 'int16' else {}     # int16: two-row no-wrap and re-quantisation stay undecided after 40 min
       out += [dict(ob='Q1', m=1, dt=dt), dict(ob='Q1', m=2, dt=dt, **hard), dict(ob='Q2', m=1, dt=dt),
               dict(ob='Q3', m=1, dt=dt), dict(ob='Q3', m=2, dt=dt), dict(ob='Q3diag', m=2, dt=dt), dict(ob='Q4', m=1, dt=dt, **hard),
               # attempted, reported, but not part of the verdict (these did not finish within the budget when built):
-              dict(ob='Q2', m=2, dt=dt, stretch=True), dict(ob='Q4', m=2, dt=dt, stretch=True)]
+              dict(ob='Q2', m=2, dt=dt, stretch=True), dict(ob='Q4', m=2, dt=dt, stretch=True),
+              dict(ob='Q1diag', m=2, dt=dt, **hard), dict(ob='Q2diag', m=2, dt=dt, stretch=True), dict(ob='Q4diag', m=2, dt=dt, stretch=True)]
     out += [dict(ob='Q1', m=3, dt='int8', stretch=True), dict(ob='Q5', m=2, dt='float32'), dict(ob='V0', m=0, dt='all', n=90)]
   return out
 
@@ -192,14 +195,14 @@ def work(t):
       reproduced = None
       for bits_, r in sats:
         xs = np.array([r['model'].get(n, 0.0) for n in names], np.float32).reshape(x.shape)
-        what = concrete(ob, dt, xs)
+        what = concrete(t['ob'], dt, xs)
         if what:
           reproduced = (xs, what)
           break
       if reproduced:
         xs, what = reproduced
-        path = write_replay(PID, dict(property=PID, ob=ob, dt=dt, x=[float(v) for v in xs.reshape(-1)], shape=list(xs.shape), observed=what))
-        viol.append(dict(key=f'C11:{ob}:{dt}', what=what, replay=path))
+        path = write_replay(PID, dict(property=PID, ob=t['ob'], dt=dt, x=[float(v) for v in xs.reshape(-1)], shape=list(xs.shape), observed=what))
+        viol.append(dict(key=f"C11:{t['ob']}:{dt}", what=what, replay=path))
         out['status'] = 'violation'
       else:
         out['status'] = 'spurious'
@@ -222,20 +225,32 @@ def work(t):
     res.append(dict(name=f'{tag}|float32 mode is the identity (terms passed through)', status='unsat' if same else 'sat', kind='core', queries=0))
     return dict(results=res, violations=[], errors=[], configs=1, samples=[dict(task=t)], extra={})
 
-  diag = ob == 'Q3diag'
+  diag = ob.endswith('diag')
   x, (q, bs, deq, q2, bs2, dg), jp = evaluate(m, dt, diag)
   nb = nb_of(dt)
   A = region(x, dt, known_open)
   if diag and 'C11:flush:subnormal-diagonal' in known_open:
     A += [z3.Not(z3.fpIsSubnormal(x[i, i])) for i in range(m)]
+  if diag and ob != 'Q3diag':
+    # the quantized part is the matrix with its diagonal removed: the per-column statements are about the off-diagonal entries
+    x_full, ob = x, ob[:2]
+    x = x.copy()
+    for i in range(m):
+      x[i, i] = z3.FPVal(0.0, F)
+    A = region(x, dt, known_open) + [z3.Not(z3.Or(z3.fpIsNaN(x_full[i, i]), z3.fpIsInf(x_full[i, i]), z3.fpIsSubnormal(x_full[i, i]))) for i in range(m)]
+    x_model = x_full
+  else:
+    x_model = x
   if ob == 'Q1':
     goal = z3.And([z3.And(z3.fpLEQ(fabs(v), z3.FPVal(nb, F)), z3.Not(z3.fpIsNaN(v))) for v in q.reshape(-1)])
-    decide(f'{tag}|stored integers are within [-{int(nb)}, {int(nb)}] (the most negative value is never used, no wrap)', A, goal, x)
-    twin(f'{tag}|twin: extreme bucket reachable', A, [z3.fpEQ(q.reshape(-1)[0], z3.FPVal(-nb, F))])
+    decide(f'{tag}|stored integers are within [-{int(nb)}, {int(nb)}] (the most negative value is never used, no wrap)', A, goal, x_model)
+    twin(f'{tag}|twin: extreme bucket reachable', A, [z3.fpEQ(q.reshape(-1)[m if diag else 0], z3.FPVal(-nb, F))])
   elif ob == 'Q2':
     goals = []
     for r_ in range(x.shape[0]):
       for c in range(x.shape[1]):
+        if diag and r_ == c:
+          continue
         diff = fabs(z3.fpSub(z3.RTZ(), deq[r_, c], x[r_, c]))
         mx = fabs(x[0, c])
         for rr in range(1, x.shape[0]):
@@ -243,8 +258,15 @@ def work(t):
         half = z3.fpMul(z3.RTP(), bs[c], z3.FPVal(0.5, F))
         slack = z3.fpMul(z3.RTP(), mx, z3.FPVal(2.0 ** -22, F))
         goals.append(z3.fpLEQ(diff, z3.fpAdd(z3.RTP(), half, slack)))
-    decide(f'{tag}|dequantize(quantize(x)) within bucket/2 + 2 ulp(maxabs) of x', A, z3.And(goals), x)
-    twin(f'{tag}|twin: non-zero rounding error reachable', A, [z3.Not(z3.fpEQ(deq[x.shape[0] - 1, 0], x[x.shape[0] - 1, 0]))])
+    if diag:
+      # one query per off-diagonal entry (the conjunction over both columns did not finish within 8 min)
+      offs = [(r_, c) for r_ in range(x.shape[0]) for c in range(x.shape[1]) if r_ != c]
+      for (r_, c), g_ in zip(offs, goals):
+        decide(f'{tag}|entry ({r_},{c}): dequantize(quantize(x)) within bucket/2 + 2 ulp(maxabs) of x', A, g_, x_model)
+    else:
+      decide(f'{tag}|dequantize(quantize(x)) within bucket/2 + 2 ulp(maxabs) of x', A, z3.And(goals), x_model)
+    twin(f'{tag}|twin: non-zero rounding error reachable', A, [z3.Not(z3.fpEQ(deq[x.shape[0] - 1, 0], x[x.shape[0] - 1, 0]))] if not diag else
+         [z3.Not(z3.fpIsZero(x[1, 0]))])
   elif ob == 'Q3':
     goals = [z3.Implies(z3.fpIsZero(x[r_, c]), z3.fpIsZero(deq[r_, c])) for r_ in range(x.shape[0]) for c in range(x.shape[1])]
     decide(f'{tag}|zeros are reproduced exactly', A, z3.And(goals), x)
@@ -256,8 +278,13 @@ def work(t):
   elif ob == 'Q4':
     goals = [z3.fpEQ(a, b) for a, b in zip(q2.reshape(-1), q.reshape(-1))]
     # re-quantisation sees the dequantised column: its own max must also be outside the open-finding regions
-    A2 = A + region(deq, dt, known_open)
-    decide(f'{tag}|re-quantizing the dequantized value reproduces the same integers', A2, z3.And(goals), x)
+    deq_r = deq
+    if diag:
+      deq_r = deq.copy()
+      for i in range(m):
+        deq_r[i, i] = z3.FPVal(0.0, F)
+    A2 = A + region(deq_r, dt, known_open)
+    decide(f'{tag}|re-quantizing the dequantized value reproduces the same integers', A2, z3.And(goals), x_model)
   return dict(results=res, violations=viol, errors=[], configs=1, samples=[dict(task=t, jaxpr_eqns=len(jp.jaxpr.eqns))],
               extra=dict(eval_s=round(time.time() - t0_, 2)))
 
@@ -287,12 +314,19 @@ def concrete(ob, dt, xs):
 
 def concrete1(ob, dt, xs, jit):
   xs = np.asarray(xs, np.float32)
-  diag = ob == 'Q3diag'
+  diag = ob.endswith('diag')
   qr, bsr, d, q2r, bs2r = real_cycle(xs, dt, diag, jit)
+  if diag and ob != 'Q3diag':
+    ob = ob[:2]
   d = np.asarray(d, np.float32)
   q = qr.astype(np.int64)
   nb = int(nb_of(dt))
   x64 = xs.astype(np.float64)
+  if diag:
+    x64 = x64 - np.diag(np.diag(x64))     # the quantized part: diagonal removed
+    d_off = d.astype(np.float64) - np.diag(np.diag(d.astype(np.float64)))
+  else:
+    d_off = d.astype(np.float64)
   if ob == 'Q1':
     if np.any(np.abs(q) > nb):
       return f'quantize({xs.reshape(-1).tolist()}, {dt}) stores {q.reshape(-1).tolist()} outside [-{nb}, {nb}]'
@@ -300,7 +334,7 @@ def concrete1(ob, dt, xs, jit):
   if ob == 'Q2':
     mx = np.abs(x64).max(axis=0)
     bucket = mx / nb
-    err = np.abs(d.astype(np.float64) - x64)
+    err = np.abs(d_off - x64)
     bound = bucket / 2 + 2 * mx * 2.0 ** -23 + 1e-45
     if not np.all(np.isfinite(d)) or np.any(err > bound):
       return (f'dequantize(quantize({xs.reshape(-1).tolist()}, {dt})) = {d.reshape(-1).tolist()}: error {err.max()} exceeds half a bucket '
